@@ -208,6 +208,9 @@ def cases(seed, tier, shard, nshards):
             vs = []
             for f, p, s in base_variants(rng, ast, per_node_annot=1):
                 vs.append(dict(fault=f, pos=p, level='base', api='resolve', string=s + '.' + frag()))
+                if f in 'ab' and (p.startswith('last') or rng.random() < 0.15):
+                    # the same faulty base string handed to from_fragment_dicts together with parsed fragment graphs
+                    vs.append(dict(fault=f, pos=p + '_via_from_fragment_dicts', level='base', api='resolve_from_fragment_dicts', string=s + '.' + frag()))
             flat = G._flat(ast)
             for i, node in enumerate(pre):
                 if any(d.get('order', 1) >= 1 for _, _, d in c['base'].edges(node, data=True)):
@@ -289,6 +292,9 @@ def execute(api, s):
     if api == 'resolve_from_graph':
         cut = s.index('}.{')
         return MoleculeResolver.from_graph(s[cut + 2:], cgsmiles.read_cgsmiles(s[:cut + 1])).resolve_all()
+    if api == 'resolve_from_fragment_dicts':
+        cut = s.index('}.{')
+        return MoleculeResolver.from_fragment_dicts(s[:cut + 1], [cgsmiles.read_fragments(s[cut + 2:])]).resolve_all()
     if api == 'resolve':
         return MoleculeResolver.from_string(s).resolve_all()
     return MoleculeResolver.from_string(s, last_all_atom=False).resolve_all()
